@@ -60,6 +60,11 @@ def gen_cases(rng, tier, count=None):
         c = gen.algo_case(rng, a, tier, n_choices=[100, 150, 200, 300, 500])
         if rng.random() < 0.6:
             c["reward"]["family"] = str(rng.choice(["zero", "tied", "const", "twoval", "negzero", "nonpos3", "bern"]))
+        if a in ("SOO", "StoSOO") and rng.random() < 0.25:
+            # a depth cap that is reached early: cells AT the cap are expanded (their children are never evaluated)
+            # and the run goes on until the cells above the cap are used up (pull then returns None / spins: C01's
+            # business, the tree is judged up to there)
+            c["params"]["h_max"] = int(rng.integers(1, 5))
         T = c["T"]
         if rng.random() < 0.6:
             c["queries"] = list(range(T))
